@@ -17,6 +17,7 @@ from pyvc.unit import unit
 from pyvc import core
 
 LEVEL = "other"
+STANDIN_ALWAYS_THOROUGH = True      # its large bound takes seconds: used at both tiers
 EXPLANATION = ("MIXED. Deductive part: finite case analysis through the real client stack over 34 response shapes (each message-body-length rule of RFC 9112 section 6.3, valid and near-valid "
                "forms) x method x segmentation x streaming x decompression, and the body-size limit at limit / limit + 1 per framing, against a strict reader written from the RFC. Bounded part: "
                "responses from a grammar with random segmentations.")
